@@ -64,6 +64,8 @@ def helper_ll(events, profile, N):
 def check_columns(ctx, rel, g, inp, tags, lib, samples, groups, n_linear, ll_of_row):
     """the property's predicate on the returned table; returns True if it holds"""
     n = len(samples)
+    if getattr(lib, "lnp_unit", None):
+        ctx.count("calls on a library whose ln_prior carries a scaled dimensionless unit")
     for name in ("ln_prior", "ln_likelihood"):
         why = column_problem(samples, name, n)
         if why is not None:
@@ -112,6 +114,8 @@ def big_case(ctx, g, rng):
     N = int(rng.integers(10500, 13000)) if g["index"] == 0 else int(rng.integers(13000, 60000))
     pr = rc.problem(ctx, 0)
     lib = rc.Library(rng, pr, N, with_ln_prior=True)
+    if getattr(lib, "lnp_unit", None):
+        ctx.count("library whose ln_prior carries a scaled dimensionless unit")
     profile = np.full(N, -17.25)
     profile -= (np.arange(N) % 7) * 1e-3          # recognisable, all but certainly accepted (exp(-0.006) > u)
     L = int(rng.choice([1, 1, 2]))
@@ -371,6 +375,7 @@ def post(ctx):
     ctx.require("file-path cases whose file name held another library before (call history)",
                 ctx.counters["prelude: same file name held another library and was sampled from"], 15)
     ctx.rule = RULE
+    ctx.require("calls on a library whose ln_prior carries a scaled dimensionless unit", ctx.counters["calls on a library whose ln_prior carries a scaled dimensionless unit"], 3)
     ctx.require("runs returning more than 10000 accepted samples (file path, shuffled)", ctx.counters["big:accepted-samples>10000"], 1)
     need = 45 if ctx.thorough else 15
     for s in ("rs", "it"):
